@@ -92,6 +92,11 @@ func headerParse(h []byte, offset int64) (Version, error) {
 	}
 }
 
+// Fits reports whether a message is within the body size the writers accept.
+func Fits(m Message) bool {
+	return len(m.Key)+len(m.Value) <= maxMessageBodySize
+}
+
 func Size(m Message, v Version) int64 {
 	switch v {
 	case V1:
